@@ -454,3 +454,6 @@ def walk(chk, repo):
                "is ignored and the walk goes on" if not ok else
                "`if error: raise EtherCatError` lies on every path from the "
                "read to the next request", path)
+
+# added rules (appended to the explanation the evidence file carries)
+EXPLANATION += (" " + 'Added during the build (DESIGN.md 4.31, second table): to_operational by abstract execution against a model of the ESC state machine (146 runs: start state x error x target x completion delay x refusing terminal, 1500-poll steps); the path rules apply when the walk is the loop they know.')
